@@ -263,7 +263,7 @@ func init() {
 	RegisterProbe("c04-mem-rename-invalid-old", c04Probe(lsMem, "RenameOld", "a/../b", "c"))
 	Register(&Engine{
 		Prop: "C04", Name: "fsdiff/name-fuzz", Run: runC04,
-		Trials: map[string]int{"quick": 4000, "thorough": 150000},
+		Trials: map[string]int{"quick": 30000, "thorough": 300000},
 		Rule:   "histories (2-17 steps) over a drawn layer stack (the twelve of C05: mem, keyvalue, mount bare/wrapped, four Sub shapes, os.FS under 1/3 Sub roots, cache, tar); half of the steps call one of 21 helpers/FS methods with an invalid name (derived from a valid path by the ValidPath boundary mutations) in one argument position and are judged: error matches ErrInvalid (ErrNotImplemented only if the same helper is unsupported for valid names), every participating FS and the scratch OS directory unchanged; the other steps are ordinary operations mirrored on an os twin, one third of the trials over an alphabet of odd but valid names (backslash, colon, space, multi-byte, '..a') for the converse; non-trivial = at least one fuzz step judged; distinct = event-log hash",
 		Components: map[string][]string{
 			"real": {"ValidPath gates in keyvalue, sub.go, fs.go helpers, mount, cache, tar, os/path.go", "all FS implementations"},
